@@ -253,6 +253,15 @@ func (st *State) step(th *Thread) {
 	if p := ins.Pos(); p != token.NoPos {
 		st.lastPos = p
 	}
+	if st.concurrent {
+		switch ins.(type) {
+		case *ssa.Call, *ssa.Store, *ssa.UnOp, *ssa.Send, *ssa.Select:
+			if th.ihits == nil {
+				th.ihits = map[ssa.Instruction]int{}
+			}
+			th.ihits[ins]++
+		}
+	}
 	switch x := ins.(type) {
 	case *ssa.Alloc:
 		T := x.Type().(*types.Pointer).Elem()
